@@ -111,7 +111,8 @@ class Ledger:
 
     def mode_guarded(self, s):
         for t, in_body in self.enclosing_tests(s.node):
-            if in_body and isinstance(t, ast.Name) and t.id == "abort_on_error":
+            conj = t.values if isinstance(t, ast.BoolOp) and isinstance(t.op, ast.And) else [t]
+            if in_body and any(isinstance(c, ast.Name) and c.id == "abort_on_error" for c in conj):
                 return True
         return False
 
